@@ -257,6 +257,37 @@ class StatementSurface(_NoShrink):
         return interesting(pats_of(x.get("action")) + pats_of(x.get("notaction")), m)
 
 
+class EditedStatementSurface(_NoShrink):
+    """history: query a statement, CHANGE its Action / NotAction (assignment, and model_copy(update=...)), query again: the second
+    answers must describe the new patterns (a result remembered on the object would describe the old ones)"""
+    name = "st.get_expanded_action_list(); st.Action/NotAction = ...; st.get_expanded_action_list()"
+    theorem = "C09_apis_agree_statement (the expansion is a function of the statement's CURRENT patterns)"
+
+    def impl(self, x):
+        from pycfmodel.model.resources.properties.statement import Statement
+
+        def run():
+            st = Statement(**stmt_kwargs(x["first"]))
+            st.get_expanded_action_list()
+            cp = st.model_copy(update={"Action": x["second"].get("action"), "NotAction": x["second"].get("notaction")})
+            st.Action = x["second"].get("action")
+            st.NotAction = x["second"].get("notaction")
+            return [st.get_expanded_action_list(), cp.get_expanded_action_list()]
+        return core.impl_call(run)
+
+    def model(self, rn, x):
+        if not stmt_ok(x["first"]) or not stmt_ok(x["second"]):
+            return UNDEF
+        r = rn.call(903, stmt_wire(dict(x["second"], effect=x["first"]["effect"])), sample=False)
+        return ("OK", [r, r])
+
+    def tags(self, x):
+        return {"statement", "edited-in-place"} | stmt_tags(x["second"])
+
+    def nontrivial(self, x, i, m):
+        return m[0] == "OK" and 0 < len(m[1][0]) < NCAT
+
+
 class DocSurface(_NoShrink):
     op = None
     method = None
@@ -345,7 +376,31 @@ class ModelLevelSurface(_NoShrink):
 
 EXPANDS, EXPAND1, STMT, ALLOWED, IAM, MODEL = (ExpandActionsSurface(), ExpandActionSurface(), StatementSurface(),
                                                AllowedSurface(), IamSurface(), ModelLevelSurface())
-SURFACES = {s.name: s for s in (EXPANDS, EXPAND1, STMT, ALLOWED, IAM, MODEL)}
+EDITED = EditedStatementSurface()
+SURFACES = {s.name: s for s in (EXPANDS, EXPAND1, STMT, ALLOWED, IAM, MODEL, EDITED)}
+
+
+def related_patterns(rng, cat):
+    """lists whose members are wildcard variants OF EACH OTHER ('?' where the other has '*', a literal where the other has a
+    wildcard, a prefix of the other), in both orders: one member must never make another one disappear"""
+    a = rng.choice(cat)
+    svc, name = a.split(":", 1)
+    i = rng.randrange(len(name))
+    j = rng.randrange(i, len(name))
+    variants = [
+        svc + ":" + name[:i] + "?" + name[i + 1:j + 1] + "*",
+        svc + ":" + name[:i] + "*" + name[i + 1:j + 1] + "*",
+        svc + ":" + name[:i] + "?" + name[i + 1:],
+        svc + ":" + name[:i] + "*",
+        svc + ":" + name[:j + 1] + "*",
+        svc + ":?" + name[1:3] + "*",
+        svc + ":*" + name[1:3] + "*",
+        a,
+    ]
+    ps = rng.sample(variants, rng.randint(2, 4))
+    if rng.random() < 0.5:
+        ps.reverse()
+    return ps
 
 
 def prepare(rn):
@@ -380,8 +435,16 @@ def cases(rng, tier, shard, nshards):
             yield EXPANDS, {"x": gen_element(rng, cat, small=rng.random() < 0.85), "na": na}
         elif r == 3:
             yield EXPAND1, {"p": gen_pattern(rng, cat, small=rng.random() < 0.85), "na": rng.random() < 0.25}
-        elif r in (4, 5):
+        elif r == 4:
             yield STMT, gen_statement(rng, cat)
+        elif r == 5:
+            if k % 20 == 5:
+                yield EDITED, {"first": gen_statement(rng, cat, allow_notaction=False), "second": gen_statement(rng, cat, allow_notaction=False)}
+            else:
+                ps = related_patterns(rng, cat)
+                na = rng.random() < 0.3
+                yield EXPANDS, {"x": ps, "na": na}
+                yield MODEL, {"statements": [{"effect": "Allow", "action": None if na else ps, "notaction": ps if na else None}]}
         elif r == 6:
             yield ALLOWED, {"statements": gen_statements(rng, cat), "single": rng.random() < 0.3}
         elif r == 7:
